@@ -43,7 +43,7 @@ def run_generators(pid, tier, seed, nproc, hashseeds, extra_env=None):
     return events
 
 
-def judge(report, module, events, chunk=60000, timeout=1500):
+def judge(report, module, events, chunk=60000, timeout=1500, relevant=None):
     """Validate events with Trace<module>; classify rejects; returns number of rejected events.
 
     events carry harness-only fields: call (for replay), feat (non-triviality key), expect ('reject' for
@@ -60,6 +60,10 @@ def judge(report, module, events, chunk=60000, timeout=1500):
         report.add_tlc(res, f"trace validation {module} ({len(part)} events)")
         for e in part:
             cl = rejects.get(e["tid"])
+            if cl and relevant is not None and e.get("expect") != "reject":
+                if "OUTDOM" in cl:
+                    raise MachineryError(f"input outside the oracle's exact domain: {json.dumps(e)[:800]}")
+                cl = cl & relevant      # clauses that belong to other properties are judged by their own checks
             if e.get("expect") == "reject":
                 if not cl:
                     raise MachineryError(f"rejection self-test was accepted: {json.dumps(e)[:600]}")
@@ -80,6 +84,59 @@ def judge(report, module, events, chunk=60000, timeout=1500):
         for k2, n in sorted(summary.items(), key=str):
             print("  rejects:", n, k2)
     return nrej
+
+
+def selftest_numeric(events, rng, ops=("parse", "prefix"), field="res", n=12):
+    """Corrupt one recorded numeric field: the trace specification must reject the line."""
+    import copy
+    out = []
+    cands = [e for e in events if "exc" not in e and e["op"] in ops and field in e]
+    rng.shuffle(cands)
+    for e in cands[:n]:
+        c = copy.deepcopy(e)
+        c["expect"] = "reject"
+        r = c[field]
+        if isinstance(r, int):
+            c[field] = 0 if r else 1
+        else:
+            c[field] = [r[0] + 1, r[1]]
+        out.append(c)
+    return out
+
+
+def standard_run(report, pid, module, tier, seed, selftests, extra_events=(), nproc=16, rule="", trivial=("plain",),
+                 relevant=None,
+                 sample_keys=("op", "sr", "G", "in", "s", "ctx", "res", "keys", "site", "tfm")):
+    import random
+    hashseeds = [0, 1, 2, 3] if tier == "quick" else list(range(32))
+    events = run_generators(pid, tier, seed, nproc, hashseeds)
+    events += list(extra_events)
+    for e in events:
+        report.case(e, trivial)
+    st = selftests(events, random.Random(seed))
+    if not st:
+        raise MachineryError("no rejection self-test could be built from this run's events")
+    judge(report, module, events + st, relevant=relevant)
+    seen = set()
+    for e in events:
+        if e.get("site") not in seen and "exc" not in e:
+            seen.add(e.get("site"))
+            report.sample({k: e[k] for k in sample_keys if k in e}, cap=8)
+    report.rule = rule
+    return events
+
+
+def generic_replay(report, rp, funcs_event, relevant=None):
+    """Re-run the recorded call against the current tree (same PYTHONHASHSEED) and judge it again."""
+    e = rp["replay"]["event"]
+    hs = str(e.get("hashseed", "0") or "0")
+    if os.environ.get("PYTHONHASHSEED") != hs:
+        env = dict(os.environ, PYTHONHASHSEED=hs)
+        return subprocess.call([sys.executable] + sys.argv, env=env)
+    new = funcs_event(e["call"]["fn"], e["call"]["args"], site=e.get("site"))
+    print("replayed observation:", json.dumps({k: new[k] for k in new if k in ("res", "exc", "note", "keys", "dist", "chart", "entries")})[:500])
+    judge(report, rp["replay"]["module"], [new], relevant=relevant)
+    return report.finish()
 
 
 def main(argv):
